@@ -134,7 +134,8 @@ def w_stats(w, cfg):
         n = len(groups)
         xs = [z3.Int(f"x{i}") for i in range(n)]
         cells = [nd if groups[i] == allnd else xs[i] for i in range(n)]
-        assume = [x >= 0 for x in xs] + [x != nd for x in xs] + [nd < 0]
+        # observations of either sign when asked for (a negative observation that is not the nodata marker is legal input)
+        assume = ([x >= -10000 for x in xs] if cfg.get("signed") else [x >= 0 for x in xs]) + [x != nd for x in xs] + [nd < 0]
         it.assume(*assume)
         it.prune_mode = "facts"
         it.overrides["brentq"] = lambda it_, st_, args, kw: it_.A.fresh("alpha", "real")
@@ -148,7 +149,7 @@ def w_stats(w, cfg):
         it.call_function(st, fn, [it.new_array(st, (n,), "int16", cells=cells), it.new_array(st, (n,), "int16", cells=list(groups)), ng,
                                   z3.ToReal(nd), it.new_array(st, (ng, 2), "int16", cells=cal), out])
         conc = lambda m: {"kernel": kind, "x": [C.model_value(m, c) for c in cells], "groups": groups, "nodata": C.model_value(m, nd)}  # noqa: E731
-        finish_kernel(w, it, f"gammastd_grp[groups={groups},all-nodata group={allnd}]", assume, [("yy", out, st)], conc, it.A.lemmas)
+        finish_kernel(w, it, f"gammastd_grp[groups={groups},all-nodata group={allnd}{',signed' if cfg.get('signed') else ''}]", assume, [("yy", out, st)], conc, it.A.lemmas)
     elif kind == "do_mean":
         fn = it.get_function("hdc.algo.ops.zonal", "do_mean")
         px, z = z3.Int("pix"), z3.Int("zone")
@@ -207,8 +208,15 @@ def w_stats(w, cfg):
     w.res.encoded.update(it.encoded)
 
 
+def w_parallel(w, cfg):
+    """Deterministic results of the multi-threaded driver: the prange iterations of ws2doptvplc_tyx write no memory that another
+    iteration touches, every output element is written by its own pixel only (machinery shared with C12)."""
+    from . import C12
+    C12.w_driver(w, {"kind": "driver", "driver": cfg["driver"], "nt": cfg["nt"], "nr": cfg["nr"], "nc": cfg["nc"]})
+
+
 def worker(w, cfg):
-    {"smoother": w_smoother, "ws2d": w_ws2d, "stats": w_stats}[cfg["kind"]](w, cfg)
+    {"smoother": w_smoother, "ws2d": w_ws2d, "stats": w_stats, "parallel": w_parallel}[cfg["kind"]](w, cfg)
 
 
 def configs(tier):
@@ -236,6 +244,8 @@ def configs(tier):
         cf.append({"kind": "stats", "kernel": "mean_grp", "groups": groups})
     for groups, allnd in (([0, 0, 0], None), ([0, 0, 0], 0), ([0, 1, 0, 1, 0, 1], 1), ([0, 1, 0, 1, 0, 1], 0)):
         cf.append({"kind": "stats", "kernel": "gammastd_grp", "groups": groups, "all_nodata_group": allnd})
+        if allnd is None or len(groups) > 3:
+            cf.append({"kind": "stats", "kernel": "gammastd_grp", "groups": groups, "all_nodata_group": allnd, "signed": True})
     cf.append({"kind": "stats", "kernel": "do_mean"})
     for n in (1, 2, 3):
         cf.append({"kind": "stats", "kernel": "lroo", "n": n})
@@ -245,10 +255,14 @@ def configs(tier):
     for template, labels in (([1, 0, 0, 1], [1, 1, 2, 2]), ([1, 1, 1, 1], [1, 2, 3, 4]), ([0, 1, 0, 0, 1, 1], [7, 7, 7, 7, 7, 7]),
                              ([1, 0, 1, 0, 1], [1, 1, 1, 2, 2])):
         cf.append({"kind": "stats", "kernel": "tinterpolate", "template": template, "labels": labels})
+    cf.append({"kind": "parallel", "driver": "ws2doptvplc_tyx", "nt": 3, "nr": 2, "nc": 2})
     return cf
 
 
 def replay_candidate(chk, c):
+    if "driver" in c["input"]:
+        r = chk.replayer.call("c12_driver", **c["input"])       # all threads, no bounds checking: races need the real schedule
+        return bool(r["violates"]), r
     r = chk.bc_replayer.call("c14_boundscheck", **c["input"])
     return bool(r["violates"]), r
 
@@ -267,11 +281,34 @@ def main(tier, seed, nproc=None):
     chk.bc_replayer = C.Replayer()
     del os.environ["NUMBA_BOUNDSCHECK"]
     chk.run(worker, configs(tier), nproc)
-    os.environ["NUMBA_BOUNDSCHECK"] = "1"
+
+    class _Lazy(C.Replayer):
+        """the bounds-checking server is started with NUMBA_BOUNDSCHECK=1, the ordinary one (races: all threads) without it"""
+
+        def __init__(self, bounds):
+            super().__init__()
+            self.bounds = bounds
+
+        def start(self):
+            if self.p is not None and self.p.poll() is None:
+                return
+            if self.bounds:
+                os.environ["NUMBA_BOUNDSCHECK"] = "1"
+                os.environ.pop("NUMBA_NUM_THREADS", None)
+            else:
+                os.environ.pop("NUMBA_BOUNDSCHECK", None)
+                os.environ["NUMBA_NUM_THREADS"] = "16"
+            try:
+                super().start()
+            finally:
+                os.environ.pop("NUMBA_BOUNDSCHECK", None)
+                os.environ.pop("NUMBA_NUM_THREADS", None)
+    chk.bc_replayer = _Lazy(True)
+    chk.replayer.close()
+    chk.replayer = _Lazy(False)
     try:
         chk.confirm(lambda c: replay_candidate(chk, c))
     finally:
-        del os.environ["NUMBA_BOUNDSCHECK"]
         chk.bc_replayer.close()
     chk.validation["cases"] = 1  # the kernels here are validated against the compiled code in C02/C03/C10/C15/C16/C17/C18/C20
     return chk.finish(
@@ -284,9 +321,12 @@ def main(tier, seed, nproc=None):
 def replay(path):
     import os
     chk = C.Check(PID, "quick", 0)
-    os.environ["NUMBA_BOUNDSCHECK"] = "1"
-    chk.bc_replayer = C.Replayer()
     c = json.load(open(path))
+    if "driver" in c["input"]:
+        os.environ["NUMBA_NUM_THREADS"] = "16"
+    else:
+        os.environ["NUMBA_BOUNDSCHECK"] = "1"
+    chk.bc_replayer = C.Replayer()
     ok, detail = replay_candidate(chk, c)
     chk.bc_replayer.close()
     print(json.dumps(detail, default=str)[:2000])
